@@ -87,6 +87,10 @@ def make_model(ctx, rng, force=False):
         if n2 is None or s.op_needs_JW(n1) != s.op_needs_JW(n2) or not C10.neutral([(s, n1), (s, n2)]):
             continue
         st = complex(np.round(rng.standard_normal(), 2) or 1.0, np.round(rng.standard_normal(), 2) if rng.random() < 0.3 else 0)
+        if force and c == 0:
+            # a hopping much weaker than the diagonal terms makes the problem nearly classical (local minima of the two-site
+            # optimisation): the regime where convergence is demanded has a backbone of order one
+            st = complex(float(np.round(rng.uniform(0.6, 1.4), 2)) * (1 if rng.random() < 0.5 else -1), st.imag)
         m.add_coupling(st, 0, n1, 0, n2, dx, plus_hc=True)
         calls.append(['add_coupling', str(st), n1, n2, dx])
         for x in range(Lx - dx):
@@ -289,7 +293,7 @@ def case_dmrg(ctx, i):
     #     subspace it starts in.  Judged only where getting stuck would be a defect and not a limit of local optimisation: the
     #     basis states linked with the initial product state by H are already linked by its nearest-neighbour terms alone, and a
     #     random field removes symmetries that the product basis does not show.
-    if (exact_regime and engine == 'TwoSiteDMRGEngine' and mixer is not None and max_sweeps >= 8 and not has_chi_list
+    if (force_conv and exact_regime and engine == 'TwoSiteDMRGEngine' and mixer is not None and max_sweeps >= 8 and not has_chi_list
             and amplitude >= 1e-3 and diag != 'ED_all' and desc['random_field']):
         start = int(np.ravel_multi_index(p_state, [s_.dim for s_ in sites]))
         comp = component(Hd, start)
